@@ -4,6 +4,11 @@ From Coq Require Import Lia ZifyBool ZifyN ZifyNat.
 Ltac Zify.zify_post_hook ::= Z.div_mod_to_equations.
 Open Scope N_scope.
 
+Lemma shorter_spec {A} (l : list A) k : shorter l k = (length l <? k)%nat.
+Proof.
+  unfold shorter. rewrite firstn_length. destruct (Nat.ltb_spec (length l) k), (Nat.ltb_spec (Nat.min k (length l)) k); try reflexivity; lia.
+Qed.
+
 Lemma be_length n v : length (be n v) = n.
 Proof. revert v; induction n as [|n IH]; intro v; cbn [be]; [reflexivity|]. rewrite app_length, IH; cbn; lia. Qed.
 
